@@ -140,20 +140,6 @@ def a6_a7(chk, repo):
     ok = isinstance(gp, ast.Call) and norm(gp.func) == "filename_to_groupname" and len(gp.args) == 1 and norm(gp.args[0]) == path
     chk.require(ok, "C13-A6", where, f"group name = filename_to_groupname({path})", f"group.path = {short(gp, 60) if gp is not None else None}", key="open_image:group-name")
     # the cached path returns the group read for the same path
-    fg = si.func("filename_to_groupname")
-    flow = Flow(fg)
-    ret = [n for n in fg.own_nodes() if isinstance(n, ast.Return)]
-    e = flow.expand(ret[0].value) if ret else None
-    txt = norm(e).replace('"', "'") if e is not None else ""
-    uses_pol = "polarization" in txt
-    uses_scan = "scan_number" in txt
-    sep = "'_'.join" in txt
-    chk.require(uses_pol and uses_scan and sep, "C13-A7", f"{si.relpath}:filename_to_groupname", "name = '_'.join of polarisation and scan<number> (both components used)",
-                f"group name is {txt[:120]}: two images differing only in {'scan' if not uses_scan else 'polarisation'} get the same name and one is dropped", key="groupname:components",
-                sample={"expr": txt[:120]})
-    prefix = "f'scan{" in txt
-    dec = "decode_filename" in txt
-    chk.require(prefix and dec, "C13-A7", f"{si.relpath}:filename_to_groupname", "scan part is 'scan<n>' from decode_filename(path)", f"scan part / decoding changed: {txt[:100]}", key="groupname:scan-prefix")
 
 
 def groupname_injective(chk, repo, rule):
